@@ -134,7 +134,8 @@ it is the same function (by unfolding). -/
 def keepV (L : Lat) (vis : List Link) (fs te : List Nat) (v : Nat) : Bool :=
   v == L.start || v == L.final || (fs.contains v && (staleV vis v || te.contains v))
 
-def posteriorPruneFast (L : Lat) (post : Link → Int) (beam : Int) : Lat × Nat :=
+/-- surviving nodes (old numbers, in order), links of the pruned lattice before renumbering, return value -/
+def prunePartsFast (L : Lat) (post : Link → Int) (beam : Int) : List Nat × List Link × Nat :=
   let vis := traverseEdges L
   let cut := cutB vis post beam
   let S := L.links.filter fun l => !cut l
@@ -146,12 +147,20 @@ def posteriorPruneFast (L : Lat) (post : Link → Int) (beam : Int) : Lat × Nat
     let xs := (exits L v).filter fun l => !cut l
     if ((exits L v).filter cut).length % 2 = 1 then xs.reverse else xs
   let kl := order.flatMap fun v => (exitsC v).filter fun l => keep l.dst
+  (order, kl, (vis.filter fun l => decide (post l < beam)).length)
+
+theorem prunePartsFast_eq (L : Lat) (post : Link → Int) (beam : Int) :
+    prunePartsFast L post beam = (keepOrder L post beam, keptLinks L post beam, nPruned L post beam) := rfl
+
+def posteriorPruneFast (L : Lat) (post : Link → Int) (beam : Int) : Lat × Nat :=
+  let parts := prunePartsFast L post beam
+  let order := parts.1
   ({ nframes := L.nframes,
      nodes := order.map L.node,
-     links := kl.map (renumLink order),
+     links := parts.2.1.map (renumLink order),
      start := renumNode order L.start,
      final := renumNode order L.final },
-   (vis.filter fun l => decide (post l < beam)).length)
+   parts.2.2)
 
 theorem posteriorPruneFast_eq (L : Lat) (post : Link → Int) (beam : Int) :
     posteriorPruneFast L post beam = posteriorPrune L post beam := rfl
